@@ -115,6 +115,63 @@ def _registry_cases(tier, names=None):
                     yield {"spec": spec.name, "cfg": ci, "items": list(comb), "tier": tier}
 
 
+# ---------------------------------------------------------------- Wasserstein, generator input (single-use iterators)
+
+GEN_ROWS = [
+    [[1, 2, 0, 1], [0, 1, 1, 0], [3, 0, 0, 1], [1, 1, 1, 1], [0, 0, 2, 1]],
+    [[4, 3, 2, 1], [1, 0, 0, 0], [1, 2, 3, 4], [0, 5, 0, 1], [2, 2, 1, 0], [0, 0, 0, 7]],
+]
+
+
+def run_generator(case):
+    """input_method="generator": distributions and vectors arrive as single-use iterators, so every call gets fresh ones;
+    fit_transform must equal fit().transform() and a second transform, whatever the block size and truncation limit"""
+    import vectorizers as V
+    rows = np.array(GEN_ROWS[case["rows"]], dtype=np.float64)
+    kw = dict(n_components=6, reference_size=3, random_state=3, metric=case["metric"], memory_size=case["memory_size"],
+              max_distribution_size=case["mds"], input_method="generator", generator_vector_dim=2, generator_n_distributions=len(rows))
+    ref = dict(reference_vectors=E.VEC4[:3].copy(), reference_distribution=np.array([0.5, 0.25, 0.25]))
+
+    def gens():
+        X, vs = [], []
+        for r in rows:
+            nz = np.nonzero(r)[0]
+            X.append(r[nz].copy())
+            vs.append(np.ascontiguousarray(E.VEC4[nz]))
+        return (x for x in X), (a for a in vs)
+    v = []
+    try:
+        e1 = V.WassersteinVectorizer(**kw)
+        X, vs = gens()
+        ft = np.asarray(e1.fit_transform(X, vectors=vs, **ref))
+        e2 = V.WassersteinVectorizer(**kw)
+        X, vs = gens()
+        ret = e2.fit(X, vectors=vs, **ref)
+        if ret is not e2:
+            v.append(viol("fit-returns-other:wasserstein_generator", "fit returned %r" % (type(ret),)))
+        X, vs = gens()
+        t2 = np.asarray(e2.transform(X, vectors=vs))
+        X, vs = gens()
+        t1 = np.asarray(e1.transform(X, vectors=vs))
+    except Exception as e:
+        return res([viol("exception:wasserstein_generator:%s" % type(e).__name__, "%s raised %r" % (case, e))], out="exc")
+    for name, t in (("fit().transform()", t2), ("transform on the fit_transform estimator", t1)):
+        if t.shape != ft.shape or not np.allclose(t, ft, rtol=1e-5, atol=1e-5):
+            v.append(viol("fit_transform-differs:wasserstein_generator%s" % (":truncated" if case["mds"] < 4 else ""),
+                          "%s differs from fit_transform by %.3g (%s)" % (name, float(np.abs(t - ft).max()) if t.shape == ft.shape else -1, case),
+                          observed=str(t.tolist())[:400], expected=str(ft.tolist())[:400]))
+            break
+    return res(v, nt=repr(case), out="generator")
+
+
+def _generator_cases(tier):
+    for ri in range(len(GEN_ROWS)):
+        for metric in ("cosine", "euclidean"):
+            for ms in ("2G", "96", "144"):
+                for mds in (256, 3, 2):
+                    yield {"rows": ri, "metric": metric, "memory_size": ms, "mds": mds}
+
+
 # ---------------------------------------------------------------- co-occurrence family
 
 COOC_CFGS = list(product_dicts(radii=[[1], [2]], kernel=["flat", "geometric"], orient=["after", "directional"], normwin=[False, True]))
@@ -272,6 +329,9 @@ def subchecks(tier, seed):
         Sub("cooccurrence_family", "I", g2, run_cooc_json, total=sum(1 for _ in g2()),
             describe="token/timed/n-gram/multiset vectorizers x radius x kernel x orientation x normalize_windows x {variable window, mask, mask+nullify, n_iter 1/2, epsilon, min_occurrences, n_threads 2, coo_initial_memory 1k} x corpora",
             nontrivial_rule="non-zero matrix", shards=48),
+        Sub("wasserstein_generator", "I", (lambda: _generator_cases(tier)), run_generator, total=sum(1 for _ in _generator_cases(tier)),
+            describe="WassersteinVectorizer(input_method='generator') on two row sets x metric x memory_size {2G, 96, 144} (one block / blocks of 2 and 3 rows) x max_distribution_size {256, 3, 2}: fit_transform vs fit().transform() vs a second transform, fresh iterators for every call",
+            nontrivial_rule="every case"),
         Sub("tree_edge_seqdiff", "I", g3, run_misc, total=sum(1 for _ in g3()),
             describe="LabelledTreeCooccurrenceVectorizer, EdgeListVectorizer, SequentialDifferenceTransformer over small inputs x settings", nontrivial_rule="every case"),
     ] + comp_subs
